@@ -148,12 +148,34 @@ fn run_hist(p: &Program, h: &[Op], c: DbConf) -> Result<hist::DbRun, String> {
 
 /// C08: open an engine on a store holding the first `k` physical commits.
 /// Returns a description of what is wrong, if anything.
+/// Both orders of asking: the nodes bottom-up (every node repairs only what
+/// is directly below it) and top-down (the root's repair has to find
+/// everything that is stale below it by itself).
 fn check_crash_prefix(
     p: &Program,
     log: &[Vec<memkv::Op>],
     k: usize,
     snaps: &[Ref],
     c: DbConf,
+) -> Result<Option<String>, String> {
+    match check_crash_prefix_order(p, log, k, snaps, c, false)? {
+        Some(m) => Ok(Some(m)),
+        // dirtiness passes through normal nodes completely, so the order of
+        // asking can only matter where a firewall or projection stops it
+        None if p.nodes.iter().any(|n| n.style != crate::pq::Style::N) => {
+            check_crash_prefix_order(p, log, k, snaps, c, true)
+        }
+        None => Ok(None),
+    }
+}
+
+fn check_crash_prefix_order(
+    p: &Program,
+    log: &[Vec<memkv::Op>],
+    k: usize,
+    snaps: &[Ref],
+    c: DbConf,
+    top_down: bool,
 ) -> Result<Option<String>, String> {
     let p = p.clone();
     let prefix: Vec<Vec<memkv::Op>> = log[..k].to_vec();
@@ -211,7 +233,9 @@ fn check_crash_prefix(
             let mut bad = None;
             {
                 let te = eng.clone().tracked().await;
-                for jn in 0..p.nodes.len() as u8 {
+                let n = p.nodes.len() as u8;
+                let order: Vec<u8> = if top_down { (0..n).rev().collect() } else { (0..n).collect() };
+                for jn in order {
                     let k2 = Key::C(jn);
                     let v = rig::query(&sh, &te, k2).await;
                     model.absorb_external_runs(&sh.take_events());
@@ -227,9 +251,10 @@ fn check_crash_prefix(
                     if !reads_x && want != Some(v) {
                         bad = Some(format!(
                             "after a crash at commit {k} (inputs of session \
-                             {j}: {:?}): query {k2:?} = {v}, from scratch \
+                             {j}: {:?}; nodes asked {}): query {k2:?} = {v}, from scratch \
                              {want:?}",
-                            shown.inputs
+                            shown.inputs,
+                            if top_down { "top-down" } else { "bottom-up" }
                         ));
                         break;
                     }
